@@ -114,6 +114,17 @@ static void slice_enter(Rec& r, const char* after) {
 static void slice_leave(Rec& r) { r.active.store(0, vh::MO); }
 #define BLOCKING(r, what, stmt) do { slice_leave(r); stmt; slice_enter(r, what); } while (0)
 
+// the in-library walker of the sleep heaps (structural mode): a thread registered in a vCPU's sleep heap must belong to
+// that vCPU - a stealer / migration that moves a thread which is still registered leaves it in two places
+static void sleepq_event(uint32_t id, uint64_t a, uint64_t b) {
+    if (id != photon::verif::E_SLEEPQ_BAD) return;
+    int kind = a & 0xff;
+    const char* k = kind == 1 ? "sleepq/back-index-wrong" : kind == 2 ? "sleepq/heap-order-broken"
+                  : kind == 5 ? "sleepq/thread-of-another-vcpu-registered" : "sleepq/other";
+    vh::violation(k, "sleep-heap invariant violated (walker inside the scheduler): a thread that was moved to another vCPU is still "
+                     "registered in the sleep heap of its previous one", vh::JObj().kv("kind", kind).kv("index", b).str());
+}
+
 static void* body(void* arg);
 static void* ret_of(Rec& r) { return (void*)(uintptr_t)(0x1000 + (&r - g_rec)); }
 
@@ -375,6 +386,8 @@ int main(int argc, char** argv) {
     if (g_alloc_mode == 2 && use_global_pooled_stack_allocator() != 0) vh::machinery_failure("global stack pool init failed");
     if (set_photon_thread_stack_allocator(g_ra) != 0) vh::machinery_failure("cannot install recording stack allocator");
     using namespace photon::verif;
+    g_hooks.tunable[T_SLEEPQ_WALK].store(1);
+    g_hooks.event = &sleepq_event;
     vh::arm_stalls(r, {P_WS_SCAN, P_MIGRATE, P_DIE_AFTER_NOTIFY, P_JOIN, P_PRELOCKED_INTERRUPT, P_RESUME_BEFORE_LOCK, P_INTERRUPT_BEFORE_LOCK, P_WAITQ_RESUME, P_SWITCH_BEFORE_SAVE});
     std::string fl;
     for (auto f : flags) fl += std::to_string(f);
